@@ -7,6 +7,7 @@ mod obs;
 mod api;
 mod hist;
 mod graphml;
+mod cent;
 use std::io::{BufRead, Write};
 
 fn main() {
@@ -41,6 +42,7 @@ fn main() {
                     "hist" => hist::run_case(&cur, &mut o),
                     "api" => api::run_case(&cur, &mut o),
                     "graphml" => graphml::run_case(&cur, &mut o),
+                    "cent" => cent::run_case(&cur, &mut o),
                     _ => {
                         eprintln!("unknown mode {}", mode);
                         std::process::exit(2);
